@@ -219,7 +219,10 @@ class Emitter:
             elif k == "LENGTH-KEY":
                 out.append(og.p_lengthkey(p["n"], key_ids[p["n"]], self.dop(p["dop"], key_ids), bytepos=bp, bitpos=bi))
             elif k == "TABLE-KEY":
-                out.append(og.p_tablekey(p["n"], key_ids[p["n"]], table_ref=self.table(p["dop"], key_ids), bytepos=bp, bitpos=bi))
+                if p["cv"]["t"] == "str":       # the row is selected statically
+                    out.append(og.p_tablekey(p["n"], key_ids[p["n"]], row_ref=f"{self.table(p['dop'], key_ids)}.{p['cv']['s']}"))
+                else:
+                    out.append(og.p_tablekey(p["n"], key_ids[p["n"]], table_ref=self.table(p["dop"], key_ids), bytepos=bp, bitpos=bi))
             elif k == "TABLE-STRUCT":
                 self.table(p["dop"], key_ids)
                 out.append(og.p_tablestruct(p["n"], key_ref=key_ids[p["sys"]], bytepos=bp, bitpos=bi))
